@@ -12,6 +12,7 @@ import (
 	"bytes"
 	"fmt"
 	"os"
+	"path/filepath"
 	"sort"
 	"strings"
 
@@ -108,6 +109,9 @@ const (
 	opUnread     = "unread"
 	opRead       = "read"
 	opRestart    = "restart"
+	// the user (or an archiving tool) moves a stored inbox message to another place and leaves a symbolic link under its
+	// name: the message is still in the inbox for every purpose (listing, count, duplicate answers)
+	opLinkOut = "linkout"
 )
 
 type op struct {
@@ -144,6 +148,8 @@ func histString(h []op) string {
 	}
 	return strings.Join(parts, " ")
 }
+
+var altDates = []string{"20240517134500", "2024.05.17 13:45", "2024-05-17 13:45", "Fri, 17 May 2024 15:45:07 +0200", "2024/05/17 13:45"}
 
 // alphabet returns the 22 operations of the exhaustive part for a cast.
 func alphabet(cast [3]variant) []op {
@@ -212,7 +218,7 @@ func (m *model) allowed(o op) bool {
 	switch o.K {
 	case opSent, opDefer:
 		return m.out[mid] != nil
-	case opUnread, opRead:
+	case opUnread, opRead, opLinkOut:
 		return m.in[mid] != nil
 	}
 	return true
@@ -294,8 +300,9 @@ type runner struct {
 	// loaded: message values listed from the inbox earlier, kept the way a user interface keeps the
 	// message it shows: every other read/unread marking is made on such a kept value instead of a
 	// freshly listed one (dropped whenever the inbox content may have changed)
-	loaded map[string]*fbb.Message
-	marks  int
+	loaded  map[string]*fbb.Message
+	marks   int
+	rawDate map[string]string // MID -> the Date field text the inbound message was received with
 }
 
 func (r *runner) violate(key, format string, a ...any) {
@@ -346,15 +353,37 @@ func (r *runner) step(o op) {
 		var msgs []*fbb.Message
 		for _, i := range idx {
 			msg := inSpec(i, o).Build()
+			if i == 2 {
+				// the third identifier arrives with its Date in one of the other layouts the library reads (BPQ, dots,
+				// dashes, RFC 5322 with a zone): the field is the sender's, storing the message does not rewrite it
+				alt := altDates[(o.L+len(o.T)+o.F)%len(altDates)]
+				msg.Header.Set("Date", alt)
+				if r.rawDate == nil {
+					r.rawDate = map[string]string{}
+				}
+				r.rawDate[mids[i]] = alt
+			}
 			msgBytes = append(msgBytes, mboxkit.MustBytes(msg))
 			msgs = append(msgs, msg)
 		}
 		if err := r.h.ProcessInbound(msgs...); err != nil {
 			r.violate("return:ProcessInbound", "ProcessInbound(%v) = %v, model: nil", idx, err)
 		}
+	case opLinkOut:
+		r.loaded = nil
+		src := filepath.Join(r.dir, "in", mid+mailbox.Ext)
+		if st, err := os.Lstat(src); err == nil && st.Mode().IsRegular() {
+			dstDir := filepath.Join(r.dir, "kept-elsewhere")
+			os.MkdirAll(dstDir, 0o755)
+			dst := filepath.Join(dstDir, mid+mailbox.Ext)
+			if os.Rename(src, dst) == nil && os.Symlink(dst, src) == nil {
+				r.o.Count("inbox_messages_replaced_by_links", 1)
+			}
+		}
 	case opInboundBad:
 		r.loaded = nil
 		good := inSpec(o.M, o).Build()
+		delete(r.rawDate, mid) // this copy carries the usual layout
 		msgBytes = [][]byte{mboxkit.MustBytes(good)}
 		bad := mboxkit.MsgSpec{MID: "UNSTORABLE01", From: "N0SRC", To: []string{"N0DST"}, BodyLen: 20}.Build()
 		bad.Header.Set("Date", "no date at all")
@@ -448,6 +477,12 @@ func (r *runner) observe() {
 			r.o.Count("bytes_compared", int64(len(b)))
 			if !bytes.Equal(mboxkit.Canon(b), mboxkit.Canon(s.bytes)) {
 				r.violate("listing:"+f.name+":bytes", "%s/%s differs from the stored message (modulo X-FilePath/X-Unread): got %q want %q", f.name, mid, mboxkit.Canon(b), mboxkit.Canon(s.bytes))
+			}
+			if want, ok := r.rawDate[mid]; ok && f.name == "inbox" {
+				r.o.Count("inbound_date_fields_compared_as_text", 1)
+				if gotDate := got[mid].Header.Get("Date"); gotDate != want {
+					r.violate("listing:inbox:date", "inbox/%s was received with the field 'Date: %s' and is stored with 'Date: %s'", mid, want, gotDate)
+				}
 			}
 			if u := mailbox.IsUnread(got[mid]); u != s.unread {
 				r.violate("listing:"+f.name+":unread", "IsUnread(%s/%s) = %v, model: %v", f.name, mid, u, s.unread)
